@@ -94,7 +94,7 @@ pub(crate) fn eval_condition_for_slice(arguments: &[String]) -> Result<bool, Str
 
                             match found_token {
                                 FoundToken::None => {
-                                    total_evaluated = Some(evaluated);
+                                    partial_evaluated = Some(evaluated);
                                     found_token = FoundToken::Value;
                                 }
                                 FoundToken::And => {
